@@ -12,7 +12,7 @@ namespace xs {
 const char* const kOpNames[OK_N] = {"Q", "PARSE", "ADDCD", "NIST_NAME", "NIST_IDX", "NIST_LIST", "RN_NAME", "RN_IDX", "RN_LIST",
                                     "A2S", "S2A", "ERR_COPY", "ERR_MATCH", "ERR_PROP", "ERR_CLEAR", "CA_INIT", "CA_ADD", "CA_READ",
                                     "CA_GET", "CA_LIST", "CA_FILL", "CR_COPY", "CR_MUT", "CR_MATH", "ATOMFAC", "FREE", "INIT",
-                                    "DEPRECATED"};
+                                    "DEPRECATED", "ERR_NEW"};
 const char* const kFileMutNames[FM_N] = {"none", "no_ucell", "dup_ucell", "bad_ucell", "no_L", "short_atom_row", "nonnumeric_atom_row",
                                          "long_line", "no_EOF_marker", "truncated_text", "random_bytes", "empty", "long_name", "bad_S_line",
                                          "extra_columns", "crlf", "no_atoms"};
@@ -34,6 +34,7 @@ static int count_names(const char* const* a) { int n = 0; while (a[n]) n++; retu
 // ------------------------------------------------------------------ argument generators
 static int gen_Z(Rng& r) {
   int c = r.range(0, 99);
+  if (c < 25) { static const int pool[] = {1, 6, 8, 14, 20, 26, 29, 47, 79, 82, 92}; return pool[r.below(11)]; }
   if (c < 60) return r.range(1, 98);
   if (c < 75) return r.range(1, 30);
   if (c < 85) return r.range(99, 120);
@@ -48,9 +49,13 @@ static int gen_macro(Rng& r, int lo, int hi) {  // legal range [lo,hi]
   static const int odd[] = {INT_MIN, INT_MAX, 1000, -1000, 65535, -65536, 384, -384, 31, 28, 29, 30, 996};
   return odd[r.below(sizeof odd / sizeof odd[0])];
 }
+// A third of all arguments come from small pools, so that different ops of one run (and probes vs. history ops)
+// share some arguments and differ in others: a cache keyed on too few arguments needs exactly that to show.
+static const double kEPool[] = {8.0, 12.0, 17.4, 8.047, 20.0, 5.0, 59.54, 1.0, 100.0};
 static double gen_E(Rng& r) {
   int c = r.range(0, 99);
-  if (c < 55) return exp(log(0.1) + r.unit() * (log(1000.0) - log(0.1)));
+  if (c < 30) return kEPool[r.below(sizeof kEPool / sizeof kEPool[0])];
+  if (c < 60) return exp(log(0.1) + r.unit() * (log(1000.0) - log(0.1)));
   if (c < 70) return (double)r.range(1, 100);
   if (c < 80) return exp(log(1e-6) + r.unit() * (log(1e6) - log(1e-6)));
   static const double odd[] = {0.0, -1.0, 1.0, 0.1, 0.0999999, 0.1000001, 800.0, 1000.0, 999.9999, 1000.0001, 1e-300, 1e300, DBL_MAX,
@@ -122,6 +127,10 @@ static std::string mutate_string(Rng& r, std::string s) {
 std::string gen_compound_arg(Rng& r, bool* is_null) {
   *is_null = false;
   int c = r.range(0, 99);
+  if (c < 22) {
+    static const char* const pool[] = {"H2O", "SiO2", "Ca5(PO4)3F", "C6H12O6", "Fe2O3", "NaCl", "Pb", "CaCO3", "Al2O3", "(H2O)2", "Water, Liquid", "Air, Dry (near sea level)"};
+    return pool[r.below(sizeof pool / sizeof pool[0])];
+  }
   if (c < 50) return gen_formula(r, 0);
   if (c < 68) {
     int n = count_names(g_nist_names);
@@ -165,8 +174,9 @@ static void fill_args(Rng& r, const QueryDef& q, Op& o) {
       else if (!strcmp(cls, "theta") || !strcmp(cls, "phi")) v = gen_angle(r);
       else if (!strcmp(cls, "q") || !strcmp(cls, "pz")) v = gen_q(r);
       else if (!strcmp(cls, "density")) v = gen_density(r);
+      else if (cls[0] == 'P' && (cls[1] == 'K' || cls[1] == 'L' || cls[1] == 'M')) v = r.chance(4, 5) ? r.unit() * 50 : gen_q(r);   // vacancy production inputs
       else v = gen_E(r);
-      if (dd < 6) o.d[dd++] = v;
+      if (dd < 12) o.d[dd++] = v;
     } else {
       o.s = gen_compound_arg(r, &o.snull);
     }
@@ -228,16 +238,32 @@ Op gen_self_contained_op(Rng& r, int id, bool crystal_catalogue) {
   else if (c < 87) { o.kind = OK_RN_IDX; o.i[0] = r.chance(9, 10) ? r.range(0, 9) : r.range(-3, 14); }
   else if (c < 88) { o.kind = OK_RN_LIST; o.i[0] = r.range(0, 1); }
   else if (c < 91) { o.kind = OK_A2S; o.i[0] = gen_Z(r); }
-  else if (c < 94) {
+  else if (c < 93) {
     o.kind = OK_S2A;
     int k = r.range(0, 9);
     if (k < 7) o.s = kSymbols[r.below(kNSymbols)];
     else if (k < 9) o.s = mutate_string(r, kSymbols[r.below(kNSymbols)]);
     else o.snull = true;
-  } else if (c < 96) {
+  } else if (c < 95) {
     o.kind = OK_ATOMFAC;
     o.i[0] = gen_Z(r); o.d[0] = gen_E(r); o.d[1] = gen_q(r); o.d[2] = r.chance(4, 5) ? 0.5 + r.unit() : gen_density(r);
     o.i[1] = r.chance(3, 4) ? 7 : r.range(0, 7);
+  } else if (c < 98) {
+    // crystal maths on a shipped crystal (fetched by name inside the op) or on a caller-built one
+    static const char* const fns[] = {"Bragg_angle", "Q_scattering_amplitude", "Crystal_F_H_StructureFactor",
+                                      "Crystal_F_H_StructureFactor_Partial", "Crystal_UnitCellVolume", "Crystal_dSpacing"};
+    o.kind = OK_CR_MATH;
+    o.fn = fns[r.chance(1, 2) ? 2 + (int)r.below(2) : (int)r.below(6)];
+    if (crystal_catalogue && r.chance(2, 3)) o.s = pick_builtin_name(r);
+    else { std::vector<std::string> pool{"Qz", "Xa"}; o.cs = gen_crystal_spec(r, pool); o.cs.cellclass %= 2; if (!o.cs.natoms) o.cs.natoms = 2; if (o.cs.natoms > 12) o.cs.natoms = 12; }
+    static const double es[] = {8.0, 12.0, 17.4, 8.047};
+    o.d[0] = r.chance(3, 4) ? es[r.below(4)] : gen_E(r);
+    for (int k = 0; k < 3; k++) o.i[k] = r.range(-3, 3);
+    if (r.chance(1, 12)) o.i[0] = o.i[1] = o.i[2] = 0;
+    static const double db[] = {1.0, 0.85, 0.5};
+    o.d[1] = r.chance(5, 6) ? db[r.below(3)] : gen_density(r);
+    o.d[2] = r.chance(3, 4) ? 1.0 : 0.5;
+    for (int k = 3; k < 6; k++) o.d[k] = r.chance(9, 10) ? (r.chance(2, 3) ? 2 : 0) : r.range(-1, 3);
   } else if (crystal_catalogue) {
     if (r.chance(1, 3)) { o.kind = OK_CA_LIST; o.h[0] = -2; o.i[0] = r.range(0, 1); }
     else {
@@ -479,8 +505,9 @@ static Op gen_crystal_math(Rng& r, GenState& st, int id, const GenCfg& cfg) {
   o.id = id;
   o.kind = OK_CR_MATH;
   static const char* const fns[] = {"Bragg_angle", "Q_scattering_amplitude", "Crystal_F_H_StructureFactor",
-                                    "Crystal_F_H_StructureFactor_Partial", "Crystal_UnitCellVolume", "Crystal_dSpacing"};
-  o.fn = fns[r.below(6)];
+                                    "Crystal_F_H_StructureFactor_Partial", "Crystal_UnitCellVolume", "Crystal_dSpacing",
+                                    "Crystal_F_H_StructureFactor2", "Crystal_F_H_StructureFactor_Partial2"};
+  o.fn = fns[r.below(8)];
   o.h[0] = r.chance(2, 3) ? st.pick(r, HT_CRYSTAL, true) : -1;
   if (o.h[0] == -1) {
     if (r.chance(1, 12)) o.i[3] = 1;  // NULL crystal
@@ -489,10 +516,11 @@ static Op gen_crystal_math(Rng& r, GenState& st, int id, const GenCfg& cfg) {
       if (!cfg.no_oob_crystal_Z && r.chance(1, 6)) o.cs.zclass = 1;
     }
   }
-  o.d[0] = r.chance(4, 5) ? 1.0 + r.unit() * 40 : gen_E(r);
+  { static const double es[] = {8.0, 12.0, 17.4, 8.047}; o.d[0] = r.chance(1, 2) ? es[r.below(4)] : r.chance(3, 5) ? 1.0 + r.unit() * 40 : gen_E(r); }
+  if (o.h[0] == -1 && !o.i[3] && r.chance(1, 3)) { o.s = pick_builtin_name(r); }
   for (int k = 0; k < 3; k++) o.i[k] = r.chance(9, 10) ? r.range(-4, 4) : r.range(-1000, 1000);
   if (r.chance(1, 15)) o.i[0] = o.i[1] = o.i[2] = 0;
-  o.d[1] = r.chance(4, 5) ? 0.5 + r.unit() * 0.5 : gen_density(r);  // debye
+  { static const double db[] = {1.0, 0.85, 0.5}; o.d[1] = r.chance(1, 2) ? db[r.below(3)] : r.chance(4, 5) ? 0.5 + r.unit() * 0.5 : gen_density(r); }  // debye
   o.d[2] = r.chance(4, 5) ? 1.0 : gen_angle(r);                     // rel angle
   for (int k = 3; k < 6; k++) o.d[k] = r.chance(9, 10) ? (r.chance(1, 2) ? 2 : 0) : r.range(-1, 3);
   if (r.chance(1, 3)) o.d[3] = 1;
@@ -563,7 +591,12 @@ void gen_history(Rng& r, const GenCfg& cfg, std::vector<Op>& out, int& next_id, 
       else if (a < 75) {
         // error object handling
         int e = st.pick(r, HT_ERROR, false);
-        if (e < 0) { o = gen_query_op(r, id); o.keep = 1; o.slot = 1; if (o.fn.find("_CP") == std::string::npos) o.i[0] = -1; st.hs.push_back({id, HT_ERROR, false}); }
+        if (e < 0 && r.chance(1, 3)) {
+          o.kind = OK_ERR_NEW; o.i[0] = r.range(0, 5); o.keep = 0;
+          static const char* const msgs[] = {"Z out of range", "", "100% literal %s %d %n", "x"};
+          o.s = r.chance(1, 6) ? std::string(r.range(100, 3000), 'm') : std::string(msgs[r.below(4)]);
+          st.hs.push_back({id, HT_ERROR, false});
+        } else if (e < 0) { o = gen_query_op(r, id); o.keep = 1; o.slot = 1; if (o.fn.find("_CP") == std::string::npos) o.i[0] = -1; st.hs.push_back({id, HT_ERROR, false}); }
         else {
           int q = r.range(0, 9);
           o.h[0] = e; o.keep = 0;
@@ -679,7 +712,12 @@ std::string op_to_text(const Op& p) {
   if (p.i[0] || p.i[1] || p.i[2] || p.i[3]) { snprintf(b, sizeof b, " i=%d,%d,%d,%d", p.i[0], p.i[1], p.i[2], p.i[3]); o += b; }
   bool anyd = false;
   for (double v : p.d) anyd = anyd || v != 0 || signbit(v);
-  if (anyd) { snprintf(b, sizeof b, " d=%a,%a,%a,%a,%a,%a", p.d[0], p.d[1], p.d[2], p.d[3], p.d[4], p.d[5]); o += b; }
+  if (anyd) {
+    int last = 0;
+    for (int k = 0; k < 12; k++) if (p.d[k] != 0 || signbit(p.d[k])) last = k;
+    o += " d=";
+    for (int k = 0; k <= last; k++) { snprintf(b, sizeof b, "%s%a", k ? "," : "", p.d[k]); o += b; }
+  }
   if (!p.s.empty()) { o += " s="; put_str(o, p.s); }
   if (p.snull) o += " snull=1";
   if (p.slot != 1) { snprintf(b, sizeof b, " slot=%d", p.slot); o += b; }
@@ -688,7 +726,7 @@ std::string op_to_text(const Op& p) {
   if (p.h[0] != -1 || p.h[1] != -1) { snprintf(b, sizeof b, " h=%d,%d", p.h[0], p.h[1]); o += b; }
   if (p.probe) o += " probe=1";
   if (p.selfc) o += " selfc=1";
-  if (p.kind == OK_CA_ADD || p.kind == OK_CR_COPY || p.kind == OK_CR_MATH || p.kind == OK_CA_FILL) put_cs(o, "cs", p.cs);
+  if (p.kind == OK_CA_ADD || p.kind == OK_CR_COPY || (p.kind == OK_CR_MATH && p.s.empty()) || p.kind == OK_CA_FILL) put_cs(o, "cs", p.cs);
   if (p.kind == OK_CA_READ) {
     const FileSpec& f = p.fs;
     snprintf(b, sizeof b, " fmut=%s fmseed=%llu", kFileMutNames[f.mut], (unsigned long long)f.mseed); o += b;
@@ -797,7 +835,7 @@ static bool parse_op(const std::string& line, Op& o, std::string* err) {
     else if (k == "i") sscanf(v.c_str(), "%d,%d,%d,%d", &o.i[0], &o.i[1], &o.i[2], &o.i[3]);
     else if (k == "d") {
       const char* p = v.c_str();
-      for (int j = 0; j < 6 && *p; j++) { char* e; o.d[j] = strtod(p, &e); p = *e == ',' ? e + 1 : e; }
+      for (int j = 0; j < 12 && *p; j++) { char* e; o.d[j] = strtod(p, &e); p = *e == ',' ? e + 1 : e; }
     }
     else if (k == "s") o.s = unquote(v);
     else if (k == "snull") o.snull = v == "1";
